@@ -100,3 +100,12 @@ Theorem C14_gslb_init_order_independent : forall conf conf',
   NoDup (map fst conf) -> Permutation conf conf' -> gslb_init conf = gslb_init conf'.
 Proof. exact gslb_init_perm. Qed.
 Print Assumptions C14_gslb_init_order_independent.
+
+(* Reload-history independence of the balancer: BalanceGslb.Init(a) followed by Reload(b) (kept sub-clusters in the old
+   order, new ones appended in map order, then sorted by name) ends in exactly the state of a fresh Init(b) -- sorted
+   sub-cluster list, totalWeight, single, and avail when single -- so subClusterBalance picks the same sub-cluster for
+   every hash value whatever was loaded before.  (Sub-cluster names are map keys: distinct.) *)
+Theorem C14_gslb_reload_history_independent : forall a b,
+  NoDup (map fst a) -> NoDup (map fst b) -> pos_total a <> 0 -> gslb_after_reload a b = gslb_fresh b.
+Proof. exact gslb_reload_history_independent. Qed.
+Print Assumptions C14_gslb_reload_history_independent.
